@@ -315,6 +315,131 @@ def h_gap_pointers(eng, n):
     eng.check(res[0].peptide_c is None and res[n - 1].peptide_n is None, "chain-ends-have-no-neighbour")
 
 
+# ---------------------------------------------------------------------------
+# K3b: pairing of structure atoms with template atoms in the three-point superposition
+# ---------------------------------------------------------------------------
+
+
+def h_reference_pairs(eng, resname, position):
+    """real repair_heavy + add_hydrogens with symbolic 'missing' selectors; every call of
+    quat.find_coordinates must pair each structure atom with the template atom of the SAME
+    identity (own atoms by name, the neighbouring residues' N / C as N+1 / C-1), all of them
+    within the residue's template bond network"""
+    from pdb2pqr import biomolecule as biomol
+
+    idx = {"nterm": 0, "internal": 1, "cterm": 2}[position]
+    heavy = [n for n in fixtures.pristine_definition().map[resname].map if not n.startswith("H")]
+    missing = [n for n in heavy if eng.flag(f"missing_{n}")]
+    eng.assume(len(missing) <= 1 or False) if False else None
+    if len(missing) > 2:
+        eng.assume(False)
+    seq = ["ALA", "GLY", "ALA", "SER"]
+    seq[idx if idx < 2 else 3] = resname
+    pos = idx if idx < 2 else 3
+    lines = fixtures.peptide_lines(seq, omit={pos: missing})
+    bm, _ = fixtures.prepared(lines)
+    res = bm.residues[pos]
+    calls = []
+    real = biomol.quat.find_coordinates
+
+    def spy(n, coords, refcoords, refatomcoords):
+        calls.append(([tuple(c) for c in coords], [tuple(c) for c in refcoords], tuple(refatomcoords)))
+        return real(n, coords, refcoords, refatomcoords)
+
+    class Q:
+        def __getattr__(self, name):
+            return getattr(biomol.quat, name)
+
+    q = Q()
+    q.find_coordinates = spy
+    with patched((biomol, "quat", q)):
+        try:
+            if bm.num_missing_heavy:
+                bm.repair_heavy()
+            bm.add_hydrogens()
+        except ValueError:
+            eng.check(True, "loud-failure-tolerated")
+            return
+    eng.note(f"missing={missing}: {len(calls)} superpositions")
+    for r in bm.residues:
+        ref = r.reference.map if hasattr(r, "reference") and r.reference is not None else {}
+        ident = {}
+        for a in r.atoms:
+            ident[tuple(a.coords)] = a.name
+        if getattr(r, "peptide_n", None) is not None:
+            ident[tuple(r.peptide_n.coords)] = "N+1"
+        if getattr(r, "peptide_c", None) is not None:
+            ident[tuple(r.peptide_c.coords)] = "C-1"
+        tmpl = {tuple(a.coords): n for n, a in ref.items()}
+        for coords, refcoords, target in calls:
+            if target not in tmpl or any(c not in ident for c in coords):
+                continue  # a call that belongs to another residue
+            for c, rc in zip(coords, refcoords):
+                want = ident[c]
+                got = tmpl.get(rc)
+                eng.check(got == want, "structure-atom-paired-with-its-own-template-atom", note=f"{r} placing {tmpl[target]}: structure atom {want} is superposed on template atom {got} (missing={missing})")
+
+
+# ---------------------------------------------------------------------------
+# K4: geometry of every added hydrogen after the real pipeline (carboxylic acids, alcohols, amides)
+# ---------------------------------------------------------------------------
+
+
+def h_added_geometry(eng, resname, ff):
+    """ALA-X-ALA with X named as a protonated acid (ASH/GLH) or another optimisable residue, one
+    carboxyl/side-chain bond optionally stretched (selector), options symbolic: after the real
+    pipeline every hydrogen sits at its template bond length from the parent atom its topology names"""
+    from pdb2pqr import main, utilities
+
+    base = {"ASH": "ASP", "GLH": "GLU"}.get(resname, resname)
+    lines = fixtures.peptide_lines(["ALA", base, "ALA"])
+    stretch = eng.choice("stretched_atom", 3)  # 0 none, 1 / 2: the first / second terminal oxygen (or heavy atom) is 0.1 A further out
+    opt = eng.flag("opt")
+    debump = eng.flag("debump")
+    ref = fixtures.pristine_definition().map[base]
+    ends = [n for n in ref.map if not n.startswith("H") and len([b for b in ref.map[n].bonds if not b.startswith("H")]) == 1 and n not in ("O", "OXT")]
+    out = []
+    for ln in lines:
+        if ln.startswith("ATOM") and int(ln[22:26]) == 2:
+            ln = ln[:17] + f"{resname:>3s}" + ln[20:]
+            name = ln[12:16].strip()
+            if stretch and len(ends) >= stretch and name == ends[stretch - 1]:
+                par = ref.map[ref.map[name].bonds[0]]
+                a = ref.map[name]
+                v = [a.x - par.x, a.y - par.y, a.z - par.z]
+                L = sum(x * x for x in v) ** 0.5
+                x, y, z = (float(ln[30:38]) + 0.1 * v[0] / L, float(ln[38:46]) + 0.1 * v[1] / L, float(ln[46:54]) + 0.1 * v[2] / L)
+                ln = ln[:30] + f"{x:8.3f}{y:8.3f}{z:8.3f}" + ln[54:]
+        out.append(ln)
+    try:
+        bm, defn = fixtures.prepared(out)
+        args = fixtures.Args(ff=ff, pka_method=None, debump=debump, opt=opt)
+        main.non_trivial(args, bm, None, defn, False)
+    except (ValueError, KeyError, TypeError, AttributeError) as e:
+        eng.check(True, "loud-failure-tolerated", note=type(e).__name__)
+        return
+    eng.note(f"{resname} stretched={ends[stretch - 1] if stretch and len(ends) >= stretch else None} opt={opt} debump={debump}")
+    for r in bm.residues:
+        if not hasattr(r, "reference") or r.reference is None:
+            continue
+        for a in r.atoms:
+            if not a.is_hydrogen or a.name not in r.reference.map:
+                continue
+            t = r.reference.map[a.name]
+            pname = t.bonds[0]
+            p = r.get_atom(pname)
+            if p is None or pname not in r.reference.map:
+                continue
+            if pname == "N":
+                continue  # amide hydrogens are fitted across the peptide bond: their geometry inherits the (synthetic) inter-residue geometry of the fixture
+            d = utilities.distance(a.coords, p.coords)
+            dt = utilities.distance(t.coords, r.reference.map[pname].coords)
+            eng.check(bool(abs(d - dt) < 0.12), "hydrogen-at-template-distance-from-its-topology-parent", note=f"{r} {a.name}: {d:.2f} A from {pname} (template {dt:.2f} A); stretched={ends[stretch - 1] if stretch and len(ends) >= stretch else None} opt={opt}")
+            others = [(utilities.distance(a.coords, o.coords), o.name) for o in r.atoms if o is not a]
+            dmin, who = min(others)
+            eng.check(bool(dmin > 0.5), "no-coincident-atoms", note=f"{r} {a.name} is {dmin:.2f} A from {who}")
+
+
 def obligations(tier):
     obs = c04.obligations(tier, prop="C05")
     groups = [("ALA", "CB"), ("LYS", "NZ"), ("MET", "CE")] if tier == "quick" else [("ALA", "CB"), ("LYS", "NZ"), ("MET", "CE"), ("VAL", "CG1"), ("VAL", "CG2"), ("THR", "CG2"), ("LEU", "CD1"), ("ILE", "CG2"), ("ILE", "CD1")]
@@ -325,6 +450,11 @@ def obligations(tier):
             variants = [(2, "-"), (3, "+120"), (3, "+240")]
         for br, at in variants:
             obs.append(Obligation(f"tetrahedral-{r}-{p}-branch{br}-{at}", run_tetrahedral, dict(resname=r, parent=p, branch=br, h1_at=at), kind="lemma", group="tetrahedral"))
+    for r, posn in (("SER", "internal"), ("GLY", "internal"), ("ASP", "cterm"), ("SER", "nterm")) if tier == "quick" else [(r, p) for r in ("SER", "GLY", "ASP", "CYS") for p in ("nterm", "internal", "cterm")]:
+        obs.append(Obligation(f"reference-pairs-{r}-{posn}", h_reference_pairs, dict(resname=r, position=posn), group="reference-pairs", time_cap=1500, max_paths=100000))
+    for r in ("ASH", "GLH", "SER", "TYR") if tier == "quick" else ("ASH", "GLH", "SER", "THR", "TYR", "ASN", "GLN", "HIS", "LYS"):
+        for ff in ("parse",) if tier == "quick" else ("parse", "amber"):
+            obs.append(Obligation(f"added-geometry-{r}-{ff}", h_added_geometry, dict(resname=r, ff=ff), group="added-geometry", time_cap=1500))
     for n in (2, 3) if tier == "quick" else (2, 3, 4):
         obs.append(Obligation(f"gap-pointers-n{n}", h_gap_pointers, dict(n=n), group="gap-pointers", time_cap=1200))
     return obs
@@ -351,7 +481,7 @@ META = dict(
         "non-degeneracy: the first hydrogen is at least 0.5 A off the parent-next axis",
     ],
     outside=[
-        "polar-hydrogen / lone-pair placement in hydrogens/optimize.py and the one-bond branch of rebuild_tetrahedral (superposition: C15; LEU/ILE staggering uses a measured dihedral)",
+        "polar-hydrogen / lone-pair placement in hydrogens/optimize.py on ARBITRARY hydrogen-bond networks (it is exercised through the real pipeline on tripeptides with symbolic option/stretch selectors and a template-distance oracle) and the one-bond branch of rebuild_tetrahedral (superposition: C15; LEU/ILE staggering uses a measured dihedral)",
         "'within the distortion already present in the input' (a float tolerance statement); three-bond branch with a second hydrogen at a distorted position",
     ],
     assumptions=[],
